@@ -9,7 +9,7 @@ git checkout -q -- . ; git clean -fdq -e target
 demos=$(ls "$out"/*.rs 2>/dev/null)
 [ -z "$demos" ] && { echo "no demo .rs in $out"; exit 2; }
 names=""
-for d in $demos; do cp "$d" "$crate/tests/"; names="$names --test $(basename "$d" .rs)"; done
+mkdir -p "$crate/tests"; for d in $demos; do cp "$d" "$crate/tests/"; names="$names --test $(basename "$d" .rs)"; done
 fa=""; [ -n "$feats" ] && fa="--features $feats"
 r0=$(cargo nextest run -p "$crate" $fa $names --offline --no-fail-fast 2>&1 | grep -E "Summary" | tail -1)
 echo "demo WITHOUT patch: $r0"
